@@ -180,6 +180,44 @@ enum Feed {
     CmdString,
     /// `yash /script`, standard input holds `data`
     ScriptFile,
+    /// `read_eval_loop` over a custom `Input` whose `next_line` returns the
+    /// script in pieces of these sizes (then the rest, then ""); a piece may end
+    /// in the middle of a line.  Standard input holds `data`.
+    Pieces(Vec<usize>),
+}
+
+/// An input function that does not cut at newlines.
+struct PieceInput {
+    pieces: Vec<String>,
+    pos: usize,
+}
+
+impl Input for PieceInput {
+    async fn next_line(&mut self, _context: &Context) -> yash_env::input::Result {
+        if self.pos < self.pieces.len() {
+            self.pos += 1;
+            Ok(self.pieces[self.pos - 1].clone())
+        } else {
+            Ok(String::new())
+        }
+    }
+}
+
+fn cut_pieces(script: &str, sizes: &[usize]) -> Vec<String> {
+    let b = script.as_bytes();
+    let mut out = vec![];
+    let mut pos = 0;
+    for n in sizes {
+        let end = (pos + n).min(b.len());
+        if end > pos {
+            out.push(String::from_utf8(b[pos..end].to_vec()).unwrap());
+        }
+        pos = end;
+    }
+    if pos < b.len() {
+        out.push(String::from_utf8(b[pos..].to_vec()).unwrap());
+    }
+    out
 }
 
 #[derive(Clone, Debug, Default)]
@@ -217,6 +255,11 @@ fn run(script: &[u8], feed: &Feed, data: &[u8]) -> Obs {
                             }
                         }
                         Feed::CmdString => {
+                            set_stdin(&state, &data);
+                            argv.push("-c".into());
+                            argv.push(String::from_utf8(script.clone()).unwrap());
+                        }
+                        Feed::Pieces(_) => {
                             set_stdin(&state, &data);
                             argv.push("-c".into());
                             argv.push(String::from_utf8(script.clone()).unwrap());
@@ -269,9 +312,19 @@ fn run(script: &[u8], feed: &Feed, data: &[u8]) -> Obs {
                     let work = configure_environment(&mut env, run).await;
                     install(&mut env);
                     let ref_env = RefCell::new(&mut env);
-                    let lexer = match prepare_input(&ref_env, &work.source).await {
-                        Ok(lexer) => lexer,
-                        Err(_) => return (127, -1, 7),
+                    let lexer = if let Feed::Pieces(sizes) = &feed {
+                        let input = PieceInput {
+                            pieces: cut_pieces(std::str::from_utf8(&script).unwrap(), sizes),
+                            pos: 0,
+                        };
+                        let mut config = yash_env::parser::Config::with_input(Box::new(input));
+                        config.source = Some(yash_env::source::Source::CommandString.into());
+                        Lexer::from(config)
+                    } else {
+                        match prepare_input(&ref_env, &work.source).await {
+                            Ok(lexer) => lexer,
+                            Err(_) => return (127, -1, 7),
+                        }
                     };
                     let result = read_eval_loop(&ref_env, &mut { lexer }).await;
                     let env = ref_env.into_inner();
@@ -988,6 +1041,14 @@ impl Feed {
             }
             Feed::CmdString => "FdString".into(),
             Feed::ScriptFile => "FdScript".into(),
+            Feed::Pieces(sizes) => {
+                if sizes.is_empty() {
+                    "(FdPieces nil)".into()
+                } else {
+                    let v: Vec<String> = sizes.iter().map(|n| n.to_string()).collect();
+                    format!("(FdPieces [{}]%nat)", v.join("; "))
+                }
+            }
         }
     }
     fn show(&self) -> String {
@@ -996,6 +1057,7 @@ impl Feed {
             Feed::Fifo(sizes, lazy) => format!("fifo{}{:?}", if *lazy { "" } else { "-eager" }, sizes),
             Feed::CmdString => "string".into(),
             Feed::ScriptFile => "scriptfile".into(),
+            Feed::Pieces(sizes) => format!("input-pieces{:?}", sizes),
         }
     }
 }
@@ -1025,6 +1087,10 @@ fn emit_raw(w: &mut CasesWriter, script: &[u8], data: &[u8], feeds: &[Feed], str
         if !utf8 && matches!(f, Feed::CmdString) {
             continue;
         }
+        // pieces are strings: cut ASCII scripts only (any byte position is a character boundary)
+        if !script.is_ascii() && matches!(f, Feed::Pieces(_)) {
+            continue;
+        }
         let o = run(script, f, data);
         runs.push(format!("({}, {})", f.coq(), obs_coq(&o)));
         runs_json.push(format!("{{\"feed\":{},\"obs\":{}}}", json_str(&f.show()), obs_json(&o)));
@@ -1033,6 +1099,7 @@ fn emit_raw(w: &mut CasesWriter, script: &[u8], data: &[u8], feeds: &[Feed], str
             Feed::Fifo(..) => "run:fifo",
             Feed::CmdString => "run:string",
             Feed::ScriptFile => "run:scriptfile",
+            Feed::Pieces(_) => "run:input-pieces",
         });
         w.count(&format!("end:{}", o.tag));
     }
@@ -1506,6 +1573,11 @@ fn standard_feeds(r: &mut Rng, script: &str, extra_fifo: usize) -> Vec<Feed> {
     }
     f.push(Feed::CmdString);
     f.push(Feed::ScriptFile);
+    f.push(Feed::Pieces(random_sizes(r, n)));
+    if n >= 2 {
+        // one cut, somewhere: very often in the middle of a line
+        f.push(Feed::Pieces(vec![1 + r.below(n - 1)]));
+    }
     f
 }
 
@@ -1701,6 +1773,29 @@ fn main() {
             Feed::ScriptFile,
         ];
         emit(&mut w, &script, "d1\nd2\n", &feeds, "multi-line-alias", &[]);
+    }
+
+    // 2f. an input function returning the script cut at every byte position
+    {
+        let cut_scripts: Vec<String> = CORPUS
+            .iter()
+            .map(|(s, _)| s.to_string())
+            .filter(|s| s.is_ascii() && s.len() >= 2 && s.len() <= 120)
+            .collect();
+        let take = args.scale(12, cut_scripts.len());
+        for (i, script) in cut_scripts.iter().take(take).enumerate() {
+            let mut r = rng.fork(950_000 + i as u64);
+            let n = script.len();
+            let mut feeds = vec![Feed::CmdString];
+            for p in 1..n {
+                feeds.push(Feed::Pieces(vec![p]));
+            }
+            feeds.push(Feed::Pieces(vec![1; n]));
+            for _ in 0..3 {
+                feeds.push(Feed::Pieces(random_sizes(&mut r, n)));
+            }
+            emit(&mut w, script, "d1\nd2\nd3\n", &feeds, "input-cut-everywhere", &[]);
+        }
     }
 
     // 3. a syntax error planted at every later line of a script
